@@ -122,8 +122,8 @@ SIDE_CONDITIONS = [
     "protocol contains no newline and no '://' (it may be empty)",
     "user name / password are percent-encoded with quote(safe='') (so they contain none of "
     "'@' ':' '!' '?' '/' or newline) and contain no lone surrogates; a user name without password "
-    "is reported with password '' (not None); an empty user name needs a password (the URL "
-    "'p://@host' is the known empty-credentials crash)",
+    "is reported with password '' (not None); an empty user name without password ('p://@host') "
+    "is reported as user '' and password ''",
     "resource is inserted raw: no newline, no '!' and no '?', no valid %XX escape (it is unquoted "
     "by the parser), and no '@' unless credentials are present",
     "params are rendered with urllib.parse.urlencode (keys/values arbitrary text without lone "
@@ -185,8 +185,6 @@ def broken_conditions(p):
     creds = p["username"] is not None
     if "\n" in p["protocol"] or "://" in p["protocol"]:
         out.append("protocol-sep-or-newline")
-    if creds and p["username"] == "" and p["password"] is None:
-        out.append("empty-credentials")
     r = p["resource"]
     if "\n" in r or "!" in r or "?" in r:
         out.append("resource-delimiter")
@@ -226,9 +224,6 @@ def check_roundtrip(p):
         obs = "%s: %s" % (type(r).__name__, r)
     if broken == ["path-at-without-credentials"]:
         return "known:at-in-path", fail(SIG_AT_PATH, "round-trip", "parse_fs_url/round-trip", p, obs, repr(exp))
-    if broken == ["empty-credentials"] and kind == "exc":
-        return "known:empty-credentials", fail(url_exception_sig(url, r), "foreign-exception",
-                                               "parse_fs_url/round-trip", p, obs, repr(exp))
     if broken:
         return "outside:" + "+".join(broken), None
     if kind == "exc":
@@ -518,7 +513,9 @@ def independent_ftp_time(text):
         # int() also accepts blanks, signs, '_' and non-ASCII digits: outside the model
         return "lenient", None
     y, mo, d, h, mi, s = [int(p) for p in parts]
-    if not (1 <= y and 1 <= mo <= 12 and 1 <= d <= 31 and h < 24 and mi < 60 and s < 62):
+    if not (1 <= y and 1 <= mo <= 12):
+        return "none", None          # no such date(year, month, 1): skipped
+    if not (1 <= d <= 31 and h < 24 and mi < 60 and s < 62):
         return "out-of-range", None
     if d > days_in_month(y, mo):
         return "out-of-range", None
@@ -1110,7 +1107,8 @@ def coq_ostr(o):
 
 
 def url_raw_observation(s):
-    """(code, raw parts, consistency note).  code 0 ParseError, 1 AttributeError, 2 parts, 9 other.
+    """(code, raw parts, consistency note).  code 0 ParseError, 2 parts, 1 / 9 an exception (agrees
+    with no model result, so it is reported as a mismatch).
     The raw parts are read off the REAL regex groups with str.partition, and must explain the
     real ParseResult through unquote/parse_qs."""
     from six.moves.urllib.parse import unquote, parse_qs
@@ -1122,7 +1120,7 @@ def url_raw_observation(s):
     if kind == "exc":
         return (1 if isinstance(r, AttributeError) else 9), None, None
     proto, creds, url1, url2, path = g.groups()
-    if creds:
+    if creds is not None:
         u, _, p = creds.partition(":")
         url = url1
         rc = (u, p)
@@ -1148,8 +1146,6 @@ def coq_crosscheck(urls, times, tag="C20"):
         code, raw, note = url_raw_observation(s)
         if note:
             mism.append(dict(model="python-side consistency", input=s, note=note))
-        if code == 9:
-            continue
         if raw is None:
             parts = "(mk_parts [] None [] None None)"
         else:
@@ -1167,7 +1163,7 @@ def coq_crosscheck(urls, times, tag="C20"):
         except ValueError:
             code, val = 1, 0
         except Exception:  # noqa
-            continue
+            code, val = 9, 0
         trows.append("  (%s, %d, (%d)%%Z)" % (coq_str(t), code, val))
         tkept.append((t, code, val))
     os.makedirs(common.WORK, exist_ok=True)
@@ -1205,11 +1201,11 @@ def coq_crosscheck(urls, times, tag="C20"):
 # ===================================================================== run / replay
 
 THEOREMS = {
-    "parse_fs_url": "Parse/ParseProofs.v url_split_total, url_crash_iff, url_empty_credentials_refuted",
+    "parse_fs_url": "Parse/ParseProofs.v url_split_total, url_never_crashes, url_parse_error_iff",
     "parse_fs_url/round-trip": "Parse/ParseProofs.v url_split_build, url_split_build_user, url_at_in_path_refuted",
-    "mlsx": "Parse/ParseProofs.v ftp_time_range, ftp_time_crash_iff, ftp_time_month13_refuted",
-    "mlsx/garbage": "Parse/ParseProofs.v ftp_time_crash_iff",
-    "ftp_time": "Parse/ParseProofs.v ftp_time_range, ftp_time_decode_impl, ftp_time_crash_iff",
+    "mlsx": "Parse/ParseProofs.v ftp_time_total, ftp_time_never_crashes, ftp_time_range",
+    "mlsx/garbage": "Parse/ParseProofs.v ftp_time_total, ftp_time_never_crashes",
+    "ftp_time": "Parse/ParseProofs.v ftp_time_total, ftp_time_range, ftp_time_decode_impl",
 }
 
 
